@@ -44,7 +44,17 @@ ASSUMPTIONS = ['per-sample value vectors have one value per sample (hypothesis O
                'which the instance check does not judge: a vector of another length is not a per-sample vector of the record); '
                'values are small integers so every float sum is exact',
                'condition literals are finite numbers (no inf / nan literal)',
-               'add_cycle_metric returning (not raising) its ValueError on a length mismatch is canonicalised to a rejection: the store is unchanged either way']
+               'add_cycle_metric returning (not raising) its ValueError on a length mismatch is canonicalised to a rejection: the store is unchanged either way',
+               'NOT JUDGED by the instance check (outside statement / quantifier; the correspondence still compares code and model): value vectors '
+               'shorter OR longer than the record and everything after one in a sequence (cache on/off may differ there); an empty condition list; '
+               'condition literals with blanks or digit-group underscores; whether a subset export before any selection raises; the name / presence '
+               'of pandas\' index column and the column ORDER of exports (columns are matched by name, rows by the metric values of the wanted cycles); '
+               'refusing an EMPTY selection, chain timings / chain metrics on an empty selection; the error CLASS of a refused operation (cache on '
+               'vs off); placeholder -1 vs NaN on unselected cycles; truncation vs rounding of an integer chain metric',
+               'MECHANISM-LEVEL (literal=False): the stored condition list mask_conditions, the auto-stored metric names is_good / chain_ind, '
+               'atomicity of a failing operation, and - for augmented-mode metrics - the cycles whose previous cycle reverses, touches 1.5 pi '
+               'exactly or lies past 1.5 pi entirely (there "from the first sample past 1.5 pi" and "back to the last sample before 1.5 pi" '
+               'name different augmented cycles; on all other cycles the value is judged literally)']
 THR = 1.5 * np.pi
 FNAMES = ['mean', 'max', 'sum', 'len', 'first', 'last', 'nunique']
 RULE = ('sequences: exhaustive over a 10-operation alphabet up to length 3 (quick) / 4 (thorough) on three alphabet phases (one shorter on the zero-cycle phase), plus random '
